@@ -46,10 +46,10 @@ theorem resetFrom_getD (bs : List Bucket) (hl : bs.length = 40) (start k p : Nat
     have hs : start % 40 < 40 := Nat.mod_lt _ (by decide)
     by_cases h1 : (p + 40 - (start + 1) % 40) % 40 < k
     · have : (p + 40 - start % 40) % 40 < k + 1 := by omega
-      simp [h1]
+      simp [h1, this]
     · by_cases h2 : start % 40 = p
       · have : (p + 40 - start % 40) % 40 < k + 1 := by omega
-        simp [h1, h2, this, hp]
+        simp [h1, h2, hp]
       · have : ¬ (p + 40 - start % 40) % 40 < k + 1 := by omega
         simp [h1, h2, this]
 
